@@ -396,12 +396,15 @@ class Instance(Component):
                 n2 = n * n
                 state = 1
             else:
-                row: Iterable[int] = map(_flow_or_dist_to_int, line.split())
+                row: list[int] = list(map(
+                    _flow_or_dist_to_int, line.split()))
                 if state == 1:
-                    flows.extend(row)
+                    missing: int = n2 - len(flows)
+                    flows.extend(row[:missing])
                     if len(flows) >= n2:
                         state = 2
-                        continue
+                    # a line may carry the last flows and the first distances
+                    row = row[missing:]
                 dists.extend(row)
                 if len(dists) >= n2:
                     state = 3
